@@ -22,6 +22,7 @@ theorem stepCore_nsinv (s : N) (op : Op) (h : NsInv s) : NsInv (stepCore s op).1
   | delNs e => exact delNs_nsinv s e h
   | setDefault p => exact setDefault_nsinv s p h
   | createIn p c n i => simpa [stepCore] using h
+  | clone e off => simpa [stepCore] using h
 
 theorem tryAll_nsinv (s0 s : N) (ops : List Op) (h0 : NsInv s0) (h : NsInv s) : NsInv (tryAll s0 s ops).1 := by
   induction ops generalizing s with
@@ -38,6 +39,7 @@ theorem tryAll_nsinv (s0 s : N) (ops : List Op) (h0 : NsInv s0) (h : NsInv s) : 
 theorem step_nsinv (s : N) (op : Op) (h : NsInv s) : NsInv (step s op).1 := by
   cases op with
   | createIn p c n i => exact tryAll_nsinv s s _ h h
+  | clone e off => exact tryAll_nsinv s s _ h h
   | create e => exact stepCore_nsinv s _ h
   | attach p c => exact stepCore_nsinv s _ h
   | detach p c => exact stepCore_nsinv s _ h
@@ -236,4 +238,16 @@ example : (run (N.initWith .edif) demoN).2 = [.ok, .ok, .ok, .ok, .ok, .ok, .val
 example : NsInv (run (N.initWith .edif) demoN).1 := run_nsinv_both_policies .edif demoN
 example : (run (N.initWith .edif) demoN).1.lookup l0 .definition .ident "ABC" = [d1] := by decide
 
+end Spydr.Names
+
+namespace Spydr.Names
+/-! Clones (`Op.clone`): the copy of a definition with port "a" is indexed like a hand-built one — a second
+    port "a" in the COPY is refused, one in a fresh name is accepted, and the copy's lookups see its own port. -/
+def demoClone : List Op :=
+  [ .create ⟨.definition, 0⟩, .createIn ⟨.definition, 0⟩ ⟨.port, 0⟩ (some "a") none, .clone ⟨.definition, 0⟩ 5 ]
+example : (run N.init demoClone).2 = [.ok, .ok, .ok] := by decide
+example : (step (run N.init demoClone).1 (.createIn ⟨.definition, 5⟩ ⟨.port, 9⟩ (some "a") none)).2 = .value := by decide
+example : (step (run N.init demoClone).1 (.createIn ⟨.definition, 5⟩ ⟨.port, 9⟩ (some "b") none)).2 = .ok := by decide
+example : (run N.init demoClone).1.lookup ⟨.definition, 5⟩ .port .name "a" = [⟨.port, 5⟩] := by decide
+example : NsInv (run N.init demoClone).1 := run_nsinv _ _ init_nsinv
 end Spydr.Names
